@@ -9,7 +9,7 @@ LEVEL = "exploration"
 RULE = (
     "a case = (shipped rule, closed program); programs = every atom of the catalogue alone in each context "
     "(module / function body / loop body / method) and every ordered pair of core atoms in module and function "
-    "context (thorough: every ordered pair of all atoms, and triples of 12 core atoms); rules = the 86 public "
+    "context (thorough: also every ordered pair of any atom with a core atom, and triples of 12 core atoms); rules = the 86 public "
     "source->source functions found by introspection; each rule is called in isolation with empty caches and the "
     "original and rewritten programs are executed; non-trivial = the rule changed the text"
 )
